@@ -303,6 +303,11 @@ func (w *c33World) decode(key string) (c33Seg, error) {
 		w.markSeg(seg, "decode")
 		return seg, errC33Injected
 	}
+	// a new attempt at this segment has its records in hand: reasons recorded by
+	// earlier attempts no longer explain why a record is unwritten
+	for i := 0; i < seg.N; i++ {
+		delete(w.cause, c33Rec{seg.Part, seg.Base + int64(i)})
+	}
 	return seg, nil
 }
 
@@ -875,6 +880,28 @@ func (l c33Lister) ListCompleted(ctx context.Context) ([]discovery.SegmentRef, e
 
 type c33Decoder struct{ w *c33World }
 
+var (
+	c33EnvMu    sync.Mutex
+	c33EnvCache = map[c33Rec][]byte{}
+)
+
+// c33Envelope is the LFS pointer record for r (real envelope codec, SHA-256 of the blob).
+func c33Envelope(r c33Rec) []byte {
+	c33EnvMu.Lock()
+	defer c33EnvMu.Unlock()
+	if b, ok := c33EnvCache[r]; ok {
+		return append([]byte{}, b...)
+	}
+	payload := c33Payload(r)
+	sum := sha256.Sum256(payload)
+	env, err := lfs.EncodeEnvelope(lfs.Envelope{Version: 1, Bucket: "b", Key: c33BlobKey(r), Size: int64(len(payload)), SHA256: hex.EncodeToString(sum[:])})
+	if err != nil {
+		panic(err)
+	}
+	c33EnvCache[r] = env
+	return append([]byte{}, env...)
+}
+
 func (d c33Decoder) Decode(ctx context.Context, segmentKey, indexKey string, topic string, partition int32) ([]decoder.Record, error) {
 	seg, err := d.w.decode(segmentKey)
 	if err != nil {
@@ -885,13 +912,7 @@ func (d c33Decoder) Decode(ctx context.Context, segmentKey, indexKey string, top
 		r := c33Rec{seg.Part, seg.Base + int64(i)}
 		val := []byte(fmt.Sprintf("v%d", r.Off))
 		if c33IsLfs(d.w.cs.Lfs, r.Off) {
-			payload := c33Payload(r)
-			sum := sha256.Sum256(payload)
-			env, err := lfs.EncodeEnvelope(lfs.Envelope{Version: 1, Bucket: "b", Key: c33BlobKey(r), Size: int64(len(payload)), SHA256: hex.EncodeToString(sum[:])})
-			if err != nil {
-				panic(err)
-			}
-			val = env
+			val = c33Envelope(r)
 		}
 		out = append(out, decoder.Record{Topic: c33Topic, Partition: seg.Part, Offset: r.Off, Timestamp: 1000 + r.Off, Value: val})
 	}
